@@ -327,3 +327,22 @@ Proof.
                 false "" "" None), "--peer", "--first".
   split; [split; [reflexivity|left; discriminate]|]. split; [vm_compute; tauto|]. split; vm_compute; discriminate.
 Qed.
+
+(* ================================================================ --network-id reaches every protocol string *)
+Lemma append_nil_r (s : string) : (s ++ "")%string = s.
+Proof. induction s as [|c r IH]; [reflexivity|]. cbn. rewrite IH. reflexivity. Qed.
+
+Lemma protocol_strings_lemma c :
+  Consts.protocol_str_names = ["IDENTIFY_NODE_VERSION_STR"; "IDENTIFY_CLIENT_VERSION_STR"; "REQ_RESPONSE_VERSION_STR"; "IDENTIFY_PROTOCOL_STR"] /\
+  protocol_strings c =
+    map (fun p => (p ++ Consts.ant_protocol_version_truncated ++ "/" ++ dec (effective_netid c))%string)
+        ["ant/node/"; "ant/client/"; "/ant/"; "ant/"] /\
+  (c_netid c = None -> effective_netid c = 1%N) /\ (forall n, c_netid c = Some n -> effective_netid c = n).
+Proof.
+  split; [reflexivity|]. split.
+  - unfold protocol_strings. cbn. rewrite !append_nil_r. reflexivity.
+  - unfold effective_netid. split; [intros ->; reflexivity|intros n ->; reflexivity].
+Qed.
+
+Example ex_protocol : protocol_strings ex_cfg = ["ant/node/0.3/5"; "ant/client/0.3/5"; "/ant/0.3/5"; "ant/0.3/5"].
+Proof. vm_compute. reflexivity. Qed.
